@@ -88,6 +88,11 @@ func c12Case(c *explore.Ctx, s *explore.SubStats, text string, cfgs []fmtCfg) {
 		s.Skipped++
 		return
 	}
+	c12Doc(c, s, d, text, cfgs)
+}
+
+// c12Doc: the round trip of one tree (parsed from text, possibly edited afterwards).
+func c12Doc(c *explore.Ctx, s *explore.SubStats, d *ast.QueryDocument, text string, cfgs []fmtCfg) {
 	p0 := normStr(projExec(d))
 	for _, cfg := range cfgs {
 		s.Executions++
@@ -259,5 +264,92 @@ func runC12(c *explore.Ctx) {
 			}
 		}
 		s.WallS = time.Since(t0).Seconds()
+	}
+	s = c.Sub("tree-edits", fmt.Sprintf("the %d profile documents with every value in a non-constant position (arguments of fields and of directives on operations, fields, spreads, inline fragments and fragment definitions, at every depth) replaced, one at a time, by a variable, a block string, a string of awkward characters and a list holding a variable × all 16 configurations — trees the parser did not build", len(gen.ExecProfiles)),
+		"round trip as above", "every edited tree")
+	if s != nil {
+		t0 := time.Now()
+		c12TreeEdits(c, s, allFmtCfgs)
+		s.WallS = time.Since(t0).Seconds()
+	}
+}
+
+// tree edits: documents the parser did not build. Every value in a non-constant position of
+// the profile documents (arguments of fields and of directives on operations, fields, fragment
+// spreads, inline fragments and fragment definitions, at every depth of list and object
+// literals) is replaced, one at a time, by a variable, by a block string and by a string of
+// awkward characters; the edited tree must survive format → parse.
+func c12TreeEdits(c *explore.Ctx, s *explore.SubStats, cfgs []fmtCfg) {
+	replacements := []*ast.Value{
+		{Kind: ast.Variable, Raw: "tv"},
+		{Kind: ast.BlockValue, Raw: "a\n  b \\\"\"\" c"},
+		{Kind: ast.StringValue, Raw: "q\"\\\n\u0001é\U000e0001"},
+		{Kind: ast.ListValue, Children: ast.ChildValueList{{Value: &ast.Value{Kind: ast.Variable, Raw: "tv"}}, {Value: &ast.Value{Kind: ast.NullValue, Raw: "null"}}}},
+	}
+	idx := 0
+	for di, text := range gen.ExecProfiles {
+		d, err := parser.ParseQuery(&ast.Source{Input: text, Name: "in"})
+		if err != nil {
+			continue
+		}
+		var sites []**ast.Value
+		var val func(v **ast.Value)
+		val = func(v **ast.Value) {
+			if *v == nil {
+				return
+			}
+			sites = append(sites, v)
+			for _, ch := range (*v).Children {
+				val(&ch.Value)
+			}
+		}
+		args := func(as ast.ArgumentList) {
+			for _, a := range as {
+				val(&a.Value)
+			}
+		}
+		dirs := func(ds ast.DirectiveList) {
+			for _, x := range ds {
+				args(x.Arguments)
+			}
+		}
+		var sel func(ss ast.SelectionSet)
+		sel = func(ss ast.SelectionSet) {
+			for _, x := range ss {
+				switch n := x.(type) {
+				case *ast.Field:
+					args(n.Arguments)
+					dirs(n.Directives)
+					sel(n.SelectionSet)
+				case *ast.FragmentSpread:
+					dirs(n.Directives)
+				case *ast.InlineFragment:
+					dirs(n.Directives)
+					sel(n.SelectionSet)
+				}
+			}
+		}
+		for _, op := range d.Operations {
+			dirs(op.Directives)
+			sel(op.SelectionSet)
+		}
+		for _, f := range d.Fragments {
+			dirs(f.Directives)
+			sel(f.SelectionSet)
+		}
+		for si, site := range sites {
+			for ri, rep := range replacements {
+				idx++
+				if idx%c.NShards != c.Shard {
+					continue
+				}
+				orig := *site
+				cp := *rep
+				*site = &cp
+				s.States++
+				c12Doc(c, s, d, fmt.Sprintf("profile %d with value %d of %d replaced by replacement %d: %s", di, si, len(sites), ri, text), cfgs)
+				*site = orig
+			}
+		}
 	}
 }
